@@ -226,6 +226,7 @@ func runConsumerScenario(t testing.TB, rec *vRec, sc *consScenario) {
 	}
 
 	config := NewConfig()
+	config.ClientID = c.clientID
 	v, err := ParseKafkaVersion(cf.Version)
 	if err != nil {
 		t.Fatalf("bad version %q", cf.Version)
